@@ -22,6 +22,7 @@ inline int point_code(const char *id) {
         {"busy_g", 42},
         {"sf_set", 52}, {"sf_clr", 53}, {"sf_inc", 54},
         {"busy_n", 43},
+        {"a_ld", 44},   {"a_st", 45},   {"a_x", 46},    {"a_cas", 47},
     };
     for (auto &p : tbl)
         if (!std::strcmp(p.first, id)) return p.second;
